@@ -237,6 +237,8 @@ RULES += engine.premise_rules("c11", ["exits", "root-result", "windows", "cut", 
 # ... and the move found is announced only if the PV walk that runs before the announcement does not trip its own assertion
 RULES += engine.premise_rules("c14", ["pv-legal"])
 
+# the mate positions reach the search as FEN strings: the position searched is the one the FEN describes (C07)
+RULES += engine.premise_rules("c07", ["letters", "fields", "castle-letters", "side-ep", "history", "build"])
 
 def run(tier):
     return engine.main(
